@@ -30,8 +30,8 @@ INFO = dict(
               'offset 0, size = 4+10+|p|, CRC field = CRC32(magic,attr,key=-1,value) (uninterpreted CRC with the chaining law), magic 0, attr 0, '
               "null key, value = payload. The harness's own encoder builds produce/metadata responses from symbolic values and the real decoders "
               'must return exactly those; a reply frame is delivered to the request registered under its correlation id only.',
-  bounds={'quick': 'topic <=2 bytes; <=2 payloads of <=2 symbolic bytes; responses: <=1 topic x <=2 partitions; metadata <=2 brokers, 1 topic, <=2 partitions, <=2 replicas/isr; all integers over their full wire range',
-          'thorough': 'topic <=3 bytes; <=3 payloads of <=3 bytes; responses <=2 topics x <=2 partitions'},
+  bounds={'quick': 'topic <=2 bytes; <=2 payloads of <=3 symbolic bytes; responses: <=1 topic x <=2 partitions; metadata <=2 brokers, 1 topic, <=2 partitions, <=2 replicas/isr; all integers over their full wire range',
+          'thorough': 'topic <=4 bytes; <=3 payloads of <=4 bytes; responses <=2 topics x <=2 partitions'},
   outside=['larger payload lists / longer payloads (sizes are computed by the same code paths; not claimed)', 'real CRC32 arithmetic (uninterpreted function + chaining law, checked concretely against zlib on every replay)',
            'the router sink above the transport (metadata refresh, leader selection)'],
   stubs=['struct.pack/unpack/Struct/calcsize in scales.binary, scales.kafka.protocol, scales.kafka.sink, scales.mux.sink -> symbolic model with range errors (3.4)',
@@ -56,7 +56,7 @@ def fresh_bytes(name, n):
 
 
 def jobs(tier):
-  mt, mp, mq = (2, 2, 2) if tier == 'quick' else (3, 3, 3)
+  mt, mp, mq = (2, 2, 3) if tier == 'quick' else (4, 3, 4)
   js = []
   import itertools
   for tl in range(mt + 1):
